@@ -18,7 +18,7 @@ LEVEL = "exploration"
 SHARDS = {"quick": 8, "thorough": 16}
 RULE = ("response frames built from every valid kind (state, capabilities, properties B1/B0, energy, humidity): truncated to every "
         "shorter body length (body check and outer checksum recomputed so validation passes; also the empty frame and frames "
-        "shorter than the header), every count byte, size byte and capability value byte set to 0..255, the header length byte inconsistent with the real length, well-formed property responses whose records combine every property id the library knows (decoded or not) or unknown ids with result bytes (success / failure flag) and sizes 0..14, a well-formed header-only or full frame followed by 1..48 trailing bytes (padding or the start of another frame), every response id 0..255 with random "
+        "shorter than the header), every count byte, size byte and capability value byte set to 0..255, the header length byte inconsistent with the real length, valid frames of every kind whose data bytes are all 0x00 / 0xFF / 0x99 (e.g. the all-zero energy response) arriving after real data on the same client, well-formed property responses whose records combine every property id the library knows (decoded or not) or unknown ids with result bytes (success / failure flag) and sizes 0..14, a well-formed header-only or full frame followed by 1..48 trailing bytes (padding or the start of another frame), every response id 0..255 with random "
         "bodies of length 0..60 and frame types 0..7, oversized frames, and fields pointing past the end; delivered alone or in "
         "mixes [bad*, good, bad*] as the answer to every request of an operation (refresh, apply with/without pending property "
         "updates, get_capabilities first/additional page, toggle_display, start_self_clean, and short sequences of them under the same device). Oracle: the operation returns "
@@ -78,6 +78,15 @@ def make_frame(spec: dict) -> bytes:
             f[1] = spec["val"] & 0xFF
         f[-1] = rc.checksum(bytes(f[1:-1]))
         return bytes(f)
+    if t == "zero":
+        # a *valid* frame of the kind whose data bytes are all zero (or all `fill`): what a unit that has nothing to
+        # report sends, e.g. the all-zero energy response of units without a power meter
+        f = RK.valid_frame(spec["kind"], 1)
+        body = bytearray(f[10:-2])
+        keep = {"state": 1, "state_sum": 1, "caps": 2, "props_b1": 2, "props_b0": 2, "energy": 4, "humidity": 4}[spec["kind"]]
+        for i in range(keep, len(body)):
+            body[i] = spec.get("fill", 0)
+        return rebuild(f[9], bytes(body), "sum" if spec["kind"] == "state_sum" else "crc")
     if t == "props":
         # a well-formed property response (0xB0 / 0xB1): records (id, result byte, size, data) in any combination
         recs = b"".join(M.prop_resp_record(r[0], bytes.fromhex(r[2]), r[1]) for r in spec["records"])
@@ -272,6 +281,10 @@ def _specs(quick: bool, rnd: random.Random) -> list:
             specs.append({"t": "lenbyte", "kind": kind, "val": v})
         for k in range(0, n - 12, 3 if quick else 1):
             specs.append({"t": "lenbyte", "kind": kind, "k": k})
+    # valid frames with nothing in them (all data bytes 0x00 / 0xFF), delivered after the normal answer of a prepared client
+    for kind in RK.KINDS:
+        for fill in (0x00, 0xFF, 0x99):
+            specs.append({"t": "zero", "kind": kind, "fill": fill})
     # property responses: every property id the library knows (decoded or not) and unknown ones x result byte x size
     pids = [0x0009, 0x000A, 0x0015, 0x0018, 0x001A, 0x0039, 0x0042, 0x0043, 0x0048, 0x004B, 0x00E3, 0x021E, 0x0001, 0x0227, 0xFFFF]
     for pid in pids:
@@ -338,6 +351,7 @@ def run(ctx) -> None:
         st.fixed_dictionaries({"t": st.just("oversize"), "kind": st.sampled_from(RK.KINDS), "extra": st.integers(1, 400)}),
         st.fixed_dictionaries({"t": st.just("badsum"), "kind": st.sampled_from(RK.KINDS)}),
         st.fixed_dictionaries({"t": st.just("lenbyte"), "kind": st.sampled_from(RK.KINDS), "val": st.integers(0, 255)}),
+        st.fixed_dictionaries({"t": st.just("zero"), "kind": st.sampled_from(RK.KINDS), "fill": st.sampled_from([0, 0, 0xFF, 0x99, 0x0A])}),
         st.fixed_dictionaries({"t": st.just("props"), "rid": st.sampled_from([0xB0, 0xB1]),
                                "records": st.lists(st.tuples(st.one_of(st.sampled_from([0x0009, 0x000A, 0x0015, 0x0018, 0x001A, 0x0039, 0x0042, 0x0043, 0x0048, 0x004B, 0x00E3, 0x021E]), st.integers(0, 0xFFFF)),
                                                              st.sampled_from([0, 0, 0x10, 0x11, 0x01, 0xFF]), st.binary(max_size=14).map(lambda b: b.hex())).map(list), max_size=6)},
